@@ -20,6 +20,13 @@ var (
 	}
 )
 
+// isTransactionBracket reports whether cmd (lower case) opens or closes a transaction.
+// The brackets belong to no database: a transaction that switches database keeps its MULTI
+// and its EXEC whatever databases are filtered out, otherwise the sender sees half a bracket.
+func isTransactionBracket(cmd string) bool {
+	return cmd == "multi" || cmd == "exec"
+}
+
 // transaction
 func transactionStatus(cmd string, prevTxnStatus txnStatus) (txnStatus, bool) {
 	switch prevTxnStatus {
